@@ -329,9 +329,12 @@ def run_case(case):
                 bad("out_of_support_point_not_rejected", theta=th, value=v)
             continue
         in_support += 1
-        if not close(v, ref, 1e-5, 1e-7):
-            bad("cost_differs_from_the_stated_posterior", theta=th, evaluation=i, value=v, reference=ref,
-                log_prior=log_prior(case["prior"], case["estimate"], th))
+        # the cost is a difference (log-prior minus residual norm): the integrator's tolerance applies to its terms, so the
+        # comparison is relative to their magnitude (a positive log-density can cancel the norm almost completely)
+        lp_ = log_prior(case["prior"], case["estimate"], th)
+        scale = max(abs(ref), abs(lp_), abs(lp_ - ref))
+        if not (v == ref or (math.isfinite(v) and abs(v - ref) <= 1e-5 * scale + 1e-7)):
+            bad("cost_differs_from_the_stated_posterior", theta=th, evaluation=i, value=v, reference=ref, log_prior=lp_)
             break
         key = tuple(th)
         if key in seen and not close(v, seen[key], 1e-12, 1e-12):
